@@ -28,8 +28,7 @@ def truth_records(draw, min_storms=4, max_storms=10, noise=False,
     fixed = fixed or {}
     dt = fixed.get('dt') or draw(st.sampled_from(dts or gen_records.STEPS))
     tz = fixed.get('tz') or draw(st.sampled_from(gen_records.ZONES))
-    t0 = fixed.get('t0') or (
-        gen_records.T0_BASE + draw(st.integers(-2000, 200000)) * dt)
+    t0 = fixed.get('t0') or gen_records.draw_t0(draw, dt, span=150)
     sy = fixed.get('sy') or draw(st.sampled_from(SY))
     thr_units = fixed.get('thr_units') or draw(
         st.sampled_from([1, 2, 3, 4, 8]))
